@@ -707,6 +707,12 @@ func (in *Interp) runFrame(fr *frame) {
 			if in.instrs > in.ex.cfg.MaxInstrs {
 				panic(pathEnd{"budget", "instruction budget"})
 			}
+			if in.tolerant && fr.fn.Synthetic != "" && fr.fn.Name() == "init" {
+				if in.tolerantVisit(fr, ins) {
+					break
+				}
+				continue
+			}
 			if in.visit(fr, ins) {
 				break
 			}
@@ -886,6 +892,33 @@ func (in *Interp) visit(fr *frame, instr ssa.Instruction) bool {
 	}
 	_ = ts
 	return false
+}
+
+// tolerantVisit: inside a package initialiser run in tolerant mode, an instruction that panics or is
+// unsupported yields the zero value of its type and initialisation continues with the next one.
+func (in *Interp) tolerantVisit(fr *frame, ins ssa.Instruction) (done bool) {
+	defer func() {
+		if r := recover(); r != nil {
+			_, isPanic := r.(*goPanic)
+			pe, isEnd := r.(pathEnd)
+			if eb, ok := r.(*engineBug); ok {
+				in.ex.noteStub("tolerant init of " + fr.fn.Pkg.Pkg.Path() + ": skipped instruction (" + eb.msg + ")")
+				isPanic = true
+			}
+			if isPanic || (isEnd && pe.kind == "unsupported") {
+				if v, ok := ins.(ssa.Value); ok {
+					func() {
+						defer func() { recover() }()
+						fr.set(v, in.zero(v.Type()))
+					}()
+				}
+				done = false
+				return
+			}
+			panic(r)
+		}
+	}()
+	return in.visit(fr, ins)
 }
 
 func (in *Interp) tolerantCall(fr *frame, ins *ssa.Call, fn value, args []value) (res value) {
